@@ -85,6 +85,10 @@ End UNode.
 Lemma umap_node_hint_same_code : Gen_UMapNodeHint.insert_hint_node = Gen_USetNodeHint.insert_hint_node.
 Proof. reflexivity. Qed.
 
+Lemma node_hint_same_code :
+  Gen_MSetNodeHint.insert_hint_node = Gen_SetNodeHint.insert_hint_node /\ Gen_UMapNodeHint.insert_hint_node = Gen_USetNodeHint.insert_hint_node.
+Proof. exact (conj mset_node_hint_same_code umap_node_hint_same_code). Qed.
+
 (* the pre-fix path (wrapper insert(node&&).position, tag -11) loses a refused element: not the std contract *)
 Lemma node_hint_prefix_refuted : exists l node, interp_unode l node (-11) <> spec_uinsert_hint_node l node.
 Proof. exists [(1, 5)], (Some (1, 6)). vm_compute. intros H. discriminate. Qed.
